@@ -177,7 +177,9 @@ def generate(seed, tier):
     return {"files": files, "steps": steps, "dirmode": dirmode,
             "one_process": rng.random() < 0.33, "io_seed": rng.randrange(1 << 30),
             "short_reads": rng.random() < 0.8, "listdir_seeds": [rng.randrange(1 << 30),
-                                                                 rng.randrange(1 << 30)]}
+                                                                 rng.randrange(1 << 30)],
+            # stub fidelity: the same commands once more as real processes on a real directory
+            "real": rng.random() < (0.02 if tier == "quick" else 0.004)}
 
 
 # ---------------------------------------------------------------------------------- execute
@@ -328,6 +330,31 @@ def execute(sc, sim):
             state.update(obs["files"])
             if "exc" in outcomes[-1] or outcomes[-1]["ok"].get("exit") != 0:
                 break
+    # ---- stub fidelity (no verdict on the property: a disagreement is reported as a harness
+    #      warning, because it would mean the seams misrepresent a real run)
+    if sc.get("real") and not any(o.get("hang") for o in obs_by_step):
+        ops = []
+        if sc["dirmode"]:
+            ops.append(["cli", argv_for(steps[0], sc["files"][0]["path"].rsplit("/", 1)[0],
+                                        "/sim/w/ignored")])
+        else:
+            for i in range(len(outcomes)):
+                ops.append(["cli", argv_for(steps[i], plans[0][i][0], plans[0][i][1])])
+        robs = sim.run_real(dict(base, files=dict(files),
+                                 sessions=[{"id": "s0", "ops": ops}]))
+        st.check("real_subprocess_commands", len(ops))
+        st.check("real_subprocess_scenarios")
+        st.check("real_subprocess_disagreements", 0)
+        sim_exit = [0 if ("exc" not in o and o["ok"].get("exit") == 0) else 1 for o in outcomes]
+        real_exit = [0 if ("exc" not in o and o["ok"].get("exit") == 0) else 1
+                     for o in robs["sessions"]["s0"]]
+        produced = dict((p, d) for p, d in state.items() if p not in files or files[p] != d)
+        if sim_exit != real_exit or produced != robs["files"]:
+            st.check("real_subprocess_disagreements")
+            st.d.setdefault("notes", []).append(
+                "real-subprocess cross-check disagrees: exits sim=%r real=%r, differing files %r"
+                % (sim_exit, real_exit, sorted(p for p in set(produced) | set(robs["files"])
+                                               if produced.get(p) != robs["files"].get(p))[:5]))
     # ---- judge
     for i in range(min(nrun, len(outcomes))):
         s = steps[i]
